@@ -74,9 +74,12 @@ def roles(comp, pieces):
 
 
 def check_all(run04, run05, P, ctx, tier='quick'):
+    """one unit of work per (owner, generic setter); units run in forked workers, their reports are replayed in order"""
+    from . import par
     apps = applicable_setters(P, ctx)
     seen = set()
     stats = {'paths': 0, 'closure_checks': 0, 'frame_checks': 0, 'states': 0}
+    units = []
     for owner, fn, wrapper in sorted(apps, key=lambda x: (x[0], x[1] or '')):
         where_w = P.where(wrapper)
         if fn is None:
@@ -87,6 +90,24 @@ def check_all(run04, run05, P, ctx, tier='quick'):
         if (owner, fn) in seen:
             continue
         seen.add((owner, fn))
+        units.append((owner, fn))
+
+    def job(i):
+        r4 = par.Recorder(tier) if run04 else None
+        r5 = par.Recorder(tier) if run05 else None
+        st = {'paths': 0, 'closure_checks': 0, 'frame_checks': 0, 'states': 0}
+        _check_unit(r4, r5, P, ctx, units[i][0], units[i][1], st)
+        return (r4.events if r4 else [], r5.events if r5 else [], st)
+    for e4, e5, st in par.pmap(job, len(units)):
+        par.replay(e4, run04)
+        par.replay(e5, run05)
+        for k in stats:
+            stats[k] += st[k]
+    return stats
+
+
+def _check_unit(run04, run05, P, ctx, owner, fn, stats):
+    if True:
         base = fn.rsplit('::', 1)[-1]
         comp = COMP_OF[base]
         fam = owner.split('::')[0]
@@ -177,7 +198,6 @@ def check_all(run04, run05, P, ctx, tier='quick'):
                 for r in (run04, run05):
                     if r:
                         r.violation(f'unhandled|{key}', f'{loc} [{guards_txt}]: effect outside the modelled subset ({e}); failing closed')
-    return stats
 
 
 def _renumber(d, outM, target):
